@@ -59,7 +59,8 @@ Flush(o, t) == IF t # <<>> /\ IsT(Head(t)) THEN Flush(Append(o, Head(t).tx), Tai
 Lab(k) == "L" \o ToString(k)
 
 IntLeaf  == <<"i", "j", "p", "7", "c", "sh", "(int)u", "a[1]", "*pp", "s.m", "b.bf", "sp.c[1]", "(int)sizeof vla", "0", "(-1)", "(int)b.lf",
-             "o.in.m", "un.i", "st", "al", "str[1]", "__func__[0]", "(int)sizeof(struct O)", "o.h", "o.u.c">>
+             "o.in.m", "un.i", "st", "al", "str[1]", "__func__[0]", "(int)sizeof(struct O)", "o.h", "o.u.c",
+             "(int)sizeof __func__", "fstr(__func__)", "fstr(\"s\")", "(int[2]){1, 2}[0]", "__func__[1]">>
 LongLeaf == <<"l", "lp", "(long)pp", "5000000000", "s.n", "b.lf">>
 DblLeaf  == <<"d", "dp", "1.5", "fl", "0.0", "(double)u", "(double)(unsigned long)l", "(float)u">>
 CondLeaf == <<"i", "d", "l", "pp", "fl", "c", "sh", "u", "b.ub", "1", "0">>
